@@ -25,6 +25,7 @@ import (
 	"encoding/json"
 	"fmt"
 	"hash"
+	"math/big"
 	"net/url"
 	"sort"
 	"strings"
@@ -343,6 +344,29 @@ func execC08(c *vf.Ctx, d *vf.Driver, cs c08Case) {
 	if !ok {
 		c08Fail(c, "property", "c08-marshal-not-json", "MarshalJSON output is not a JSON object", cs, string(data), "JSON object")
 		return
+	}
+	if m.Kind == "rsa" {
+		// Base64urlUInt (RFC 7518 §2): minimum number of octets — asserted directly on goat's output
+		for name, v := range m.rsaMembers() {
+			c.Count(fmt.Sprintf("rsa-bitlen-mod8:%s:%d", name, v.BitLen()%8))
+			if name == "e" {
+				c.Count(fmt.Sprintf("rsa-e-octets:%d", (v.BitLen()+7)/8))
+			}
+			str, ok := goMap[name].(string)
+			if !ok {
+				continue // dp, dq, qi are optional
+			}
+			b, err := c08b64.DecodeString(str)
+			if err != nil || len(b) == 0 || b[0] == 0 || new(big.Int).SetBytes(b).Cmp(v) != 0 {
+				c08Fail(c, "property", pcls("c08-rsa-nonminimal:"+name), "RSA member "+name+" is not the minimal-length big-endian encoding of its value",
+					cs, fmt.Sprintf("%x", b), fmt.Sprintf("%x", v.Bytes()))
+				return
+			}
+		}
+		c.Count("rsa-minimal-ok")
+	}
+	if len(p.X5c) > 1 {
+		c.Count(fmt.Sprintf("x5c-chain-len:%d", len(p.X5c)))
 	}
 	if got, want := c08Canon(goMap), vf.FromJSON(mObj.ToJSON()).Render(); got != want {
 		c08Fail(c, "correspondence", pcls("c08-marshal-value"), "MarshalJSON: emitted object differs from the model's", cs, string(data), string(mustJSON(mObj.ToJSON())))
@@ -733,9 +757,9 @@ func c08GenParams(r *vf.Rand, m c08Mat, mask int, serial int64) c08Params {
 	if mask&32 != 0 {
 		if der := c08CertFor(r, m, serial); der != nil {
 			p.X5c = [][]byte{der}
-			if r.Intn(3) == 0 {
-				_, ca := c08CA()
-				p.X5c = append(p.X5c, ca.Raw)
+			if r.Intn(2) == 0 {
+				// chains of 2-3 certificates: issuer, same-size sibling, longer second certificate
+				p.X5c = append(p.X5c, c08ChainTail(r, m, vf.Pick(r, c08ChainShapes), serial)...)
 			}
 		}
 	}
@@ -834,6 +858,28 @@ func runC08(c *vf.Ctx) {
 			mm := m
 			mm.Pre = pre
 			sys = append(sys, c08Case{Mat: mm, Hash: "sha256"})
+		}
+	}
+	for i, e := range c08BoundaryE {
+		pm := c08RSAPool()[i%4]
+		pm.Priv, pm.D, pm.P, pm.Pre, pm.E = false, "", nil, false, e
+		sys = append(sys, c08Case{Mat: pm, Hash: "sha256"})
+	}
+	// certificate chains of every shape on the three certifiable key types
+	for _, mk := range []c08Mat{c08GenEC(sr, "P-256", true), c08GenEC(sr, "P-521", false), c08GenRSAMat(sr, true), c08GenOKP(sr, "Ed25519", true)} {
+		for _, shape := range c08ChainShapes {
+			for _, mask := range []int{32, 32 | 64 | 128} {
+				serial++
+				pp := c08GenParams(sr, mk, mask&^32, serial)
+				if der := c08CertFor(sr, mk, serial); der != nil {
+					pp.X5c = append([][]byte{der}, c08ChainTail(sr, mk, shape, serial)...)
+					if mask&64 != 0 {
+						s1, s2 := sha1.Sum(der), sha256.Sum256(der)
+						pp.HasX5t, pp.X5t, pp.HasT256, pp.X5t256 = true, s1[:], true, s2[:]
+					}
+					sys = append(sys, c08Case{Mat: mk, Params: pp, Hash: "sha256"})
+				}
+			}
 		}
 	}
 	workers := 16
